@@ -193,6 +193,11 @@ func execStorage(c stCase, _ *kit.Env) kit.Outcome {
 				for k := range data {
 					model[op.Addr+uint64(k)] = data[k]
 				}
+
+				// the caller reuses its buffer afterwards: the storage must hold a copy
+				for k := range data {
+					data[k] = 0xA5
+				}
 			} else {
 				oob++
 
